@@ -1,10 +1,11 @@
 SPECIFICATION FairSpec
 CONSTANTS
   MaxE = 3
-  Configs <- CfgLive
+  Configs <- CfgStuck
   KeepHist = FALSE
   GateAtomic = FALSE
   NonIdemRetry = FALSE
-  Defect_WaitResultsOnly = FALSE
+  Defect_WaitResultsOnly = TRUE
 INVARIANTS NoViolation
 PROPERTIES Terminates
+CHECK_DEADLOCK FALSE
